@@ -71,6 +71,18 @@ theorem poll_forwarded_final (cfg : Cfg) (o : Oracle) (height now : Int) (s : WS
   obtain ⟨pb, hpb, hu, hh, hm, hidx, hs, hcf⟩ := poll_forwarded cfg o height now s c hc
   exact ⟨pb, hpb, c.1, hu, c.2, hh, rfl, hm, hidx, hs, hs, (confirmed_final (hr pb hpb c.1 hu c.2 hh) hcf).1⟩
 
+/-- **Polling path, height source included.** With the real height poller in front of the event loop, whatever a tick
+forwards satisfies the conjunction of `poll_forwarded` for the height the node reported *in this tick* — not for any
+height it reported earlier. -/
+theorem polled_forwarded (cfg : Cfg) (o : Oracle) (latest : Option Int) (now : Int) (s : WState) (c : Unconf × Header)
+    (hc : c ∈ (stepPolled cfg o latest now s).2) :
+    ∃ height, latest = some height ∧ ∃ pb ∈ s.pending, c.1 ∈ pb.evs ∧ headerOf o pb = some c.2 ∧ o.main pb.block = some true ∧
+      c.1.ev.idx = 0 ∧ c.1.msg.sender = cfg.bridge ∧
+      isEventConfirmed c.1.msg c.2 now height cfg.mainnet = true := by
+  cases latest with
+  | none => simp [stepPolled] at hc
+  | some height => exact ⟨height, rfl, poll_forwarded cfg o height now s c hc⟩
+
 private def exBridge : Bytes := [7]
 private def exCfg : Cfg := { mainnet := true, bridge := exBridge, gov := "gov" }
 private def exMsg : Msg := ⟨exBridge, 2, 5, 9, 1, [1, 0]⟩
@@ -80,6 +92,9 @@ private def exOracle : Oracle := { main := fun _ => some true, hdr := fun _ => s
 example : (stepHeight exCfg exOracle 101 3280000 exState).2 = [(⟨exEv, exMsg⟩, ⟨100, 0⟩)] := by decide
 example : (stepHeight exCfg exOracle 101 3279999 exState).2 = [] := by decide
 example : (stepHeight exCfg exOracle 100 3280000 exState).2 = [] := by decide
+-- the node reported 101 earlier and reports 100 now: nothing is forwarded on the strength of the earlier answer
+example : (stepPolled exCfg exOracle (some 100) 3280000 (stepPolled exCfg exOracle (some 101) 0 exState).1).2 = [] := by decide
+example : (stepPolled exCfg exOracle (some 101) 3280000 exState).2 = [(⟨exEv, exMsg⟩, ⟨100, 0⟩)] := by decide
 
 /-- What the fetch loop lets through was served by the node, has event index 0, converts, and — for a token
 attestation — carries exactly the metadata the token contract reported when asked. -/
